@@ -535,7 +535,7 @@ func runPerm(t *testing.T, sched simrt.Schedule, prog permProg) ([]Violation, Ru
 				// a divergence that shows on a topic on which a handler was interrupted earlier (e.g. the owner field
 				// after a half-done transfer that a later request completes in the cache only)
 				for i := range dv {
-					if m2 := divTopicUser.FindStringSubmatch(dv[i].Text); m2 != nil && len(faultTaint[m2[1]]) > 0 && dv[i].Property == "C08" {
+					if m2 := divTopicUser.FindStringSubmatch(dv[i].Text); m2 != nil && len(faultTaint[m2[1]]) > 0 && dv[i].Property == "C08" && !loadKnownFindings()["C08 "+dv[i].Key] {
 						dv[i].Key = taintKey(m2[1])
 					}
 				}
@@ -849,7 +849,7 @@ func runPerm(t *testing.T, sched simrt.Schedule, prog permProg) ([]Violation, Ru
 				}
 				rv := div.filter(cacheVsStore(w, sn, "after reload"), rc, detachedDiverged)
 				for i := range rv {
-					if m := divTopicUser.FindStringSubmatch(rv[i].Text); m != nil && len(faultTaint[m[1]]) > 0 && rv[i].Property == "C08" {
+					if m := divTopicUser.FindStringSubmatch(rv[i].Text); m != nil && len(faultTaint[m[1]]) > 0 && rv[i].Property == "C08" && !loadKnownFindings()["C08 "+rv[i].Key] {
 						rv[i].Key = taintKey(m[1])
 					}
 				}
